@@ -18,7 +18,9 @@ def file_mode_for_path(path):
     from black import parse_pyproject_toml
 
     mode = FileMode()
-    pyproject_path = find_pyproject_toml((), path)
+    # search from the file: an empty tuple lets black start at the current
+    # working directory, which a test may have changed
+    pyproject_path = find_pyproject_toml((str(path),))
     if pyproject_path is not None:
         config = parse_pyproject_toml(pyproject_path)
 
